@@ -364,13 +364,16 @@ impl StreamsState {
         }
         self.on_stream_frame(!stopped, id);
 
-        // Update connection-level flow control
-        Ok(if bytes_read != final_offset.into_inner() {
-            // bytes_read is always <= end, so this won't underflow.
+        // Update connection-level flow control. A stopped stream has already been credited for
+        // everything received on it (when it was stopped and on every frame since); only the
+        // part up to the final size that never arrived is still owed.
+        let credited = if stopped { end } else { bytes_read };
+        Ok(if credited != final_offset.into_inner() {
+            // credited is always <= end, so this won't underflow.
             self.data_recvd = self
                 .data_recvd
                 .saturating_add(u64::from(final_offset) - end);
-            self.add_read_credits(u64::from(final_offset) - bytes_read)
+            self.add_read_credits(u64::from(final_offset) - credited)
         } else {
             ShouldTransmit(false)
         })
